@@ -169,6 +169,10 @@ def run_case(ctx, cls_name, ans, student, xs, ys, es, ss, tolerance, failable, c
         cfg['max_array_dim'] = 2
     if extra_cfg:
         cfg.update(extra_cfg)
+    debug = ctx.counters['grader_calls'] % 6 == 5
+    if debug:
+        cfg['debug'] = True       # the debug path logs every comparison; the verdict is the same
+        ctx.count('debug_grader_calls')
     g = cls(**cfg)
     TAP['events'] = []
     out = lib.call(ctx, g, None, student)
@@ -176,7 +180,7 @@ def run_case(ctx, cls_name, ans, student, xs, ys, es, ss, tolerance, failable, c
     ctx.count('grader_calls')
     wit = dict(wit, grader=cls_name, answer=ans, submission=student, x_samples=list(xs), y_samples=list(ys),
                tolerance=tolerance, failable_evals=failable, credit=credit, oracle_pattern=pattern,
-               oracle_failures=fails, outcome=out.brief())
+               oracle_failures=fails, debug=debug, outcome=out.brief())
     if not out.returned:
         ctx.violation('C04:raises:' + cls_name, 'grading raised %r' % (out.exc,), wit)
         return
